@@ -333,7 +333,7 @@ func runRaceChild(ctx *RunCtx, args ...string) (reports int, pairs map[string]in
 	return reports, pairs, stdout, true, ""
 }
 
-var frameRe = regexp.MustCompile(`(?m)^  (github\.com/weedbox/pokerface[^\s(]*)\(`)
+var frameRe = regexp.MustCompile(`(?m)^  (github\.com/weedbox/pokerface\S*?)\(\)\s*$`)
 
 // outermost /repo frames of the two stacks of a race report
 func raceEntryPair(block string) string {
